@@ -33,7 +33,12 @@ Shapes == {"attr", "method", "sub_int", "sub_str", "call", "name"}
 Recv == {"txn", "field", "row", "str", "num", "bool", "date", "none", "list", "gen", "exotic_const", "unknown"}
 AttrClass == {"txn_known", "field_builtin", "field_captured", "row_key", "str_method_ok", "str_method_other",
               "dunder", "other"}
-NameClass == {"primitive", "variable", "data_source", "whitelisted_fn", "python_builtin", "dunder_name", "unknown"}
+\* "module_public": a public name of a Python module the interpreter has loaded (statistics.median, itertools.repeat,
+\* collections.namedtuple, operator.itemgetter, math.sqrt ...) - not a name of the language
+NameClass == {"primitive", "variable", "data_source", "whitelisted_fn", "python_builtin", "dunder_name", "module_public", "unknown"}
+\* the two evaluators have separate name and function tables: rule expressions (TransactionEvaluator) and view filters
+\* (ExpressionEvaluator); view filters have no data sources
+Evaluators == {"txn", "view"}
 
 SafeKinds == {"str", "num", "bool", "date", "none", "list_of_safe", "row", "gen_of_safe", "exotic_const"}
 
@@ -58,14 +63,15 @@ NameOutcome(shape, ncls) ==
     [] shape = "call" /\ ncls = "whitelisted_fn" -> {"val", "err"}
     [] shape = "call" -> {"err"}                                     \* eval(), open(), getattr(), type(), __import__() ...
 
-VARIABLES shape, recv, cls, out
-vars == <<shape, recv, cls, out>>
+VARIABLES shape, recv, cls, out, ev
+vars == <<shape, recv, cls, out, ev>>
 
 Init == \/ /\ shape \in {"attr", "method", "sub_int", "sub_str"} /\ recv \in Recv /\ cls \in AttrClass
-           /\ out = Outcome(shape, recv, cls)
-        \/ /\ shape \in {"name", "call"} /\ recv = "-" /\ cls \in NameClass
+           /\ out = Outcome(shape, recv, cls) /\ ev = "txn"
+        \/ /\ shape \in {"name", "call"} /\ recv = "-" /\ cls \in NameClass /\ ev \in Evaluators
+           /\ ~(ev = "view" /\ cls = "data_source")
            /\ out = NameOutcome(shape, cls)
-        \/ /\ shape = "kind" /\ recv = "-" /\ cls \in Kinds
+        \/ /\ shape = "kind" /\ recv = "-" /\ cls \in Kinds /\ ev = "txn"
            /\ out = IF Validate({cls}) THEN {"ok"} ELSE {"rej"}
 Next == UNCHANGED vars
 Spec == Init /\ [][Next]_vars
@@ -75,7 +81,7 @@ Spec == Init /\ [][Next]_vars
 Confined ==
   /\ (shape \in {"attr", "method", "sub_int", "sub_str"} /\ "val" \in out) => ResultKind(shape, recv, cls) = "safe_scalar"
   /\ (shape \in {"attr", "method"} /\ cls \in {"dunder", "other", "str_method_other"}) => out = {"err"}
-  /\ (shape \in {"name", "call"} /\ cls \in {"python_builtin", "dunder_name", "unknown"}) => out = {"err"}
+  /\ (shape \in {"name", "call"} /\ cls \in {"python_builtin", "dunder_name", "module_public", "unknown"}) => out = {"err"}
   /\ (shape = "kind" /\ cls \in OtherKinds) => out = {"rej"}
 \* attribute access never works on values the language computes (only on txn / field / rows)
 NoAttrOnValues == (shape = "attr" /\ recv \in {"str", "num", "bool", "date", "none", "list", "gen", "exotic_const", "unknown"}) => out = {"err"}
